@@ -964,6 +964,12 @@ func runC19(c *Ctx, n int) {
 					} else if m.edVal(&back) != m.edVal(ed) || !back.ValidUntil.Equal(ed.ValidUntil) {
 						bad("xml-roundtrip", "values differ after xml.Marshal + xml.Unmarshal: "+string(b))
 					}
+					// independent reader: the normative metadata names, not the library's own struct tags
+					if got, rerr := m.readMetadataXML(b); rerr != nil {
+						bad("xml-not-metadata", "marshalled descriptor is not SAML metadata: "+rerr.Error()+": "+string(b))
+					} else if got != m.edVal(ed) {
+						bad("xml-not-metadata", "marshalled descriptor reads back (by the metadata schema) to other values: "+string(b))
+					}
 					if doc := etree.NewDocument(); doc.ReadFromBytes(b) != nil || doc.Root() == nil || doc.Root().Tag != "EntityDescriptor" {
 						bad("xml-roundtrip", "marshalled metadata does not parse as an EntityDescriptor document")
 					}
